@@ -286,6 +286,66 @@ def ob_nested(k: int, hk: int) -> bool:
     return res == exp and log == elog
 
 
+class Mix:
+    pass
+
+
+class ErrMix(Err2, ValueError):
+    """two base classes: a handler naming either base (or a base of either) must match"""
+
+
+class ErrMix2(Mix, Err3):
+    pass
+
+
+T_MI = cooked('<dtml-try><dtml-var body><dtml-except ValueError>V<dtml-except Err1>E1<dtml-except>B</dtml-try>|'
+              '<dtml-try><dtml-var body><dtml-except ArithmeticError>A<dtml-except LookupError Err2>L2<dtml-except>B</dtml-try>|'
+              '<dtml-try><dtml-var body><dtml-except Err3>E3<dtml-except Mix>M<dtml-except>B</dtml-try>')
+
+
+def ob_multiple_bases(k: int) -> bool:
+    """first handler naming the exception's class or ANY of its base classes (multiple inheritance included)"""
+    def body():
+        if k == 0:
+            raise ErrMix('x')
+        if k == 1:
+            raise ErrMix2('y')
+        if k == 2:
+            raise Err3('z')
+        raise UnicodeDecodeError('utf-8', b'x', 0, 1, 'w')      # ValueError via UnicodeError
+    out = T_MI(body=body, Mix=Mix, Err1=Err1, Err2=Err2, Err3=Err3)
+    if k == 0:
+        return out == 'V|L2|B'          # ValueError is the second base of ErrMix, Err2 its first
+    if k == 1:
+        return out == 'E1|L2|E3'        # Err3 is the second base of ErrMix2
+    if k == 2:
+        return out == 'E1|L2|E3'
+    return out == 'V|B|B'
+
+
+T_SCOPE = cooked('<dtml-try><dtml-try><dtml-var body><dtml-except Err2>I:<dtml-var error_type>:<dtml-var h><dtml-var error_value></dtml-try>'
+                 '<dtml-except>O:<dtml-var error_type>:<dtml-var error_value></dtml-try>|<dtml-var error_type missing="UNBOUND">|<dtml-var error_value missing="UNBOUND">')
+
+
+def ob_error_vars_scope(k: int, hk: int) -> bool:
+    """error_type / error_value are bound inside a handler only - also when the handler itself raises and an outer handler
+    takes over (it sees the NEW exception), and nothing stays bound after the blocks"""
+    log = []
+    out = T_SCOPE(body=raiser(log, 'body', k), h=raiser(log, 'h', hk))
+    tail = '|UNBOUND|UNBOUND'
+    if k == 0:
+        return out == tail
+    name = {1: 'Err1', 2: 'Err2', 3: 'Err3', 4: 'KeyError'}
+    msg = {1: 'm1', 2: 'm2', 3: 'm3', 4: 'kk'}
+    kk = 1 if k == 1 else (2 if k == 2 else (3 if k == 3 else 4))
+    if kk in (2, 3):
+        if hk == 0:
+            return out == 'I:%s:%s' % (name[kk], msg[kk]) + tail
+        hh = 1 if hk == 1 else (2 if hk == 2 else (3 if hk == 3 else 4))
+        return out == 'O:%s:%s' % (name[hh], msg[hh]) + tail
+    return out == 'O:%s:%s' % (name[kk], msg[kk]) + tail
+
+
 OBLIGATIONS = []
 for _k in TT:
     OBLIGATIONS.append(Ob('try_' + _k, make_try(_k), ['0 <= k <= 4', '0 <= hk <= 4', '0 <= ek <= 4'], timeout=tier(100, 300),
@@ -308,3 +368,6 @@ for _k in T_RAISE:
                           data='message text m, any code points, len <= 3', selectors='dtml-raise form ' + _k,
                           stubs='relib-escape' if _k == 'epfs' else ''))
 ASSUMES = ['stubs never raise KeyError(<name being looked up>)']
+OBLIGATIONS.append(Ob('multiple_bases', ob_multiple_bases, ['0 <= k <= 3'], timeout=tier(100, 300), data='which exception the body raises', selectors='exception classes with two bases; handlers naming a secondary base or a base of it'))
+OBLIGATIONS.append(Ob('error_vars_scope', ob_error_vars_scope, ['0 <= k <= 4', '0 <= hk <= 4'], timeout=tier(100, 300), data='class raised by the body, class raised by the inner handler',
+                      selectors='nested try: inner handler raises, outer bare handler; error_type/error_value after the blocks'))
